@@ -137,7 +137,7 @@ func init() {
 			su.MaxTx = 12
 			su.Policy = &NoisePolicy{Rng: rng, Sess: su.Sess, CheckRate: 0.05, CrashRate: 0.004, ReplayCrashRate: 0.01, MaxCrashes: 4}
 			su.Between = RestartAndJoinBetween(0.5, 0.04, nrep+2, k.NumValidators)
-			su.PlanHook = AbsentHook(0.08)
+			su.PlanHook = EvidenceHook(0.03, AbsentHook(0.08))
 			return su
 		},
 		MakeOracle: func(e *core.Engine, tr *core.Trace) Oracle {
